@@ -2,7 +2,10 @@
 C04, region ownership of relocation entries over ALL programs (Lemmas/RelInv.lean, Lemmas/RelStep.lean).
 
  * `relocs_own_their_regions`  for every program of assembling operations, on every architecture and base: every RelocEntry's
-      region `[source offset, + region size)` lies inside its section's buffer and contains the value word
+      region `[source offset, + region size)` lies inside its section's buffer, contains the value word, its value word still has
+      zero field bits (nothing has written there: neither later emissions nor any bind / resolve patch), its format is one of the
+      formats proved exact in C17, no entry lives in the `.addrtab` section, address-table entries have their two opcode bytes inside
+      the region
       (`value offset + value size ≤ region size`, so `relocate_to_base`'s bounds test never fails and `write_offset` - and the
       two opcode bytes the address-table rewrite touches - stay inside the entry's own instruction); regions of distinct
       entries are pairwise disjoint; and every region is disjoint from the field of every fixup reference (so neither
@@ -21,7 +24,7 @@ namespace AsmjitVerif.CodeHolder
 open AsmjitVerif.Offset
 
 theorem rinv_init (arch : Arch) (base : BitVec 64) : RInv (State.init arch base) := by
-  refine ⟨?_, ?_, ?_⟩ <;> simp [State.init]
+  refine ⟨?_, ?_, ?_, ?_, ?_⟩ <;> simp [State.init]
 
 /-- **region ownership (assembling phase).** -/
 theorem relocs_own_their_regions (arch : Arch) (base : BitVec 64) (ops : List Op) (hops : ∀ op ∈ ops, op.early = true) :
@@ -41,7 +44,14 @@ theorem grow_resolve (s : State) (h : Inv s) : Grow s (resolve s).1 := by
       rw [hl] at hk; cases hk
       exact ⟨l, lsec, loff, hl, hb, h.fmts _ hg⟩
     have LS := resolveLoop_spec s.labels s.fixups { secs := s.secs, relocs := s.relocs, kept := [], resolved := 0, err := .ok } hrl
-    exact ⟨LenExt.of_shape LS.shape, ⟨[], by simp, by simp, fun _ hx => by cases hx⟩, ⟨[], by simp, fun _ hx => by cases hx⟩, .inr rfl⟩
+    refine ⟨LenExt.of_shape LS.shape, ?_, ⟨[], by simp, by simp, fun _ hx => by cases hx⟩, ⟨[], by simp, fun _ hx => by cases hx⟩, .inr rfl,
+      .inl rfl, id⟩
+    intro g _ hD
+    apply LS.frame
+    intro f hf
+    obtain ⟨l, _, hgf⟩ := h.glob.1 f hf
+    have hd : D g (f.toG l) := hD _ hgf
+    exact hd
 
 /-- **region ownership in the state `relocate_to_base` starts from** -/
 theorem relocs_own_their_regions_final (arch : Arch) (base : BitVec 64) (ops : List Op) (hops : ∀ op ∈ ops, op.early = true) :
